@@ -15,6 +15,14 @@ partial derivatives exist at every observer off the six face planes (inside and 
 with an explicit Jacobian (`cuboid_partials`), and div B = 0, curl H = 0 (also div H = 0, curl B = 0)
 there (`cuboid_div_free`, `cuboid_H_curl_free`, `cuboid_div_curl_free`, `cuboid_curl_free_outside`,
 `cuboid_wrapper_div_curl_free`; Lemmas/CuboidDiv.lean).
+Triangle sheet (`triangle_Bfield` port `triangleB`, `BHJM_triangle` row `bhjmTriangle`), and with it Tetrahedron and the rows of
+TriangularMesh (sums of sheets, plus the polarization inside): at every observer OFF THE PLANE of the triangle at which the code does
+not clamp the solid angle (`|Ω| < 6.2831853`, strictly) and which is strictly outside the three `on_edge` tolerance tubes
+(`TriDiv.TriClear`), all nine partial derivatives exist, with the explicit Jacobian `TriDiv.triJac`
+(`σ/(4π)·(n ⊗ ∇Ω + Σ_i (L_i × n) ⊗ ∇I_i)`, `∇Ω = −Σ_i β_i R_i × L_i` the Biot–Savart sum over the boundary), its trace vanishes
+(div B = 0) and it is symmetric (curl H = 0): `triangle_partials`, `triangle_div_free`, `triangle_curl_free`,
+`triangle_div_curl_free`; `tetra_H_curl_free`, `tetra_B_div_free` (off the four face planes; the inside mask is locally constant
+there), `trimesh_row_div_free`, `trimesh_row_H_curl_free` (Lemmas/TriangleDiv.lean).
 INTEGRAL forms (section `integral_laws`, Lemmas/BoxLaws.lean, Lemmas/BoxLawsCuboid.lean).  Proved, at the carrier ℝ, with
 the flux written as the six iterated interval integrals over the faces (`boxFlux6`; `boxFlux` pairs opposite faces)
 and the circulation as the four line integrals along the sides (`rectCircZ4/X4/Y4`; `rectCircZ/X/Y` pair opposite sides):
@@ -40,7 +48,7 @@ the one-sided smooth continuations of the closed form up to the face, see the FU
 measure), rectangles cutting a Cuboid face (circulation), boxes / rectangles cutting the Sphere surface (pointwise
 interface conditions only: `sphere_interface_model`); boxes enclosing the Dipole position; Ampère's law with a threading current (Circle, closed Polyline:
 linking-number form); every integral statement for Segment/Polyline, Circle, Cylinder, CylinderSegment, Triangle,
-Tetrahedron, TriangularMesh and collections.
+Tetrahedron, TriangularMesh and collections (for Triangle / Tetrahedron / TriangularMesh rows only the local forms above).
 /- FULL: zero flux of B through every closed surface and circulation of H = linked current for
    every loop, all classes.  Needs C01 for every class plus Gauss/Stokes for general surfaces;
    not shown by theorem beyond the cases listed above.  The flux/circulation quadrature oracle checks boxes and loops
@@ -53,6 +61,7 @@ import MagpyVerif.Lemmas.SegmentDiv
 import MagpyVerif.Lemmas.CuboidDiv
 import MagpyVerif.Lemmas.BoxLaws
 import MagpyVerif.Lemmas.BoxLawsCuboid
+import MagpyVerif.Lemmas.TriangleDiv
 import MagpyVerif.Props.C01
 namespace MagpyVerif.C14
 open MagpyVerif MagpyVerif.Kern
@@ -891,5 +900,170 @@ example : boxFlux6 (cuboidB (⟨2, 2, 2⟩ : V3 ℝ) ⟨0, 1, 2⟩) ⟨1 / 2, -1
     (by norm_num) (by norm_num) (by norm_num) (by simp only [mem_Icc]; norm_num) (by simp only [mem_Icc]; norm_num)
 
 end integral_laws
+
+
+/-! ### Triangle sheet, Tetrahedron, TriangularMesh rows: local laws (Lemmas/TriangleDiv.lean)
+
+`triangle_Bfield` is `B = σ/(4π)·(Ω n − n × Σ_i I_i L_i)` with `Ω = 2·atan2(N, D)` (Van Oosterom–Strackee; replaced by 0 when
+`|Ω| > 6.2831853`) and the edge integrals `I_i` in a three-branch cancellation-free form (plus the finite `on_edge` value inside a
+1e-15 tube).  `TriDiv.TriClear v0 v1 v2 p` says: `p` is off the plane of the triangle (`N ≠ 0`), `|Ω| < 6.2831853` strictly, and for
+each edge `rho2 > 1e-30·l2` or `a > 0` or `c < 0` (strictly outside the closed tube in which the `on_edge` branch is taken).  These are
+open conditions; on them the model equals the smooth closed form `TriDiv.triSmooth`, which is differentiated term by term. -/
+
+section triangle_local
+open MagpyVerif.TriDiv MagpyVerif.CuboidDiv
+
+/-- C14 (Triangle): the full Jacobian.  At every observer satisfying `TriClear` the model of `triangle_Bfield` has all nine partial
+derivatives, given by `triJac`; its trace and its antisymmetric part vanish. -/
+theorem triangle_partials (v0 v1 v2 pol p : V3 ℝ) (h : TriClear v0 v1 v2 p) :
+    HasPartials (triangleB v0 v1 v2 pol) p (triJac v0 v1 v2 pol p) ∧ jacDiv (triJac v0 v1 v2 pol p) = 0 ∧
+      jacCurl (triJac v0 v1 v2 pol p) = ⟨0, 0, 0⟩ :=
+  ⟨triangleB_hasPartials v0 v1 v2 pol p h, triJac_div v0 v1 v2 pol p h, triJac_curl v0 v1 v2 pol p h⟩
+
+/-- C14 (Triangle, local form of the flux law): div B = 0 off the plane of the sheet -/
+theorem triangle_div_free (v0 v1 v2 pol p : V3 ℝ) (h : TriClear v0 v1 v2 p) : DivFreeAt (bhjmTriangle .B v0 v1 v2 pol) p :=
+  (triangleB_dcfree v0 v1 v2 pol p h).divFreeAt
+
+/-- C14 (Triangle, local form of Ampère's law without currents): what `BHJM_triangle` returns for `field="H"` (`B/μ₀`) has a
+symmetric Jacobian — H is a gradient field — off the plane of the sheet -/
+theorem triangle_curl_free (v0 v1 v2 pol p : V3 ℝ) (h : TriClear v0 v1 v2 p) : CurlFreeAt (bhjmTriangle .H v0 v1 v2 pol) p :=
+  ((triangleB_dcfree v0 v1 v2 pol p h).vd mu0R).curlFreeAt
+
+/-- C14 (Triangle): all four local laws -/
+theorem triangle_div_curl_free (v0 v1 v2 pol p : V3 ℝ) (h : TriClear v0 v1 v2 p) :
+    DivFreeAt (bhjmTriangle .B v0 v1 v2 pol) p ∧ CurlFreeAt (bhjmTriangle .H v0 v1 v2 pol) p ∧
+    DivFreeAt (bhjmTriangle .H v0 v1 v2 pol) p ∧ CurlFreeAt (bhjmTriangle .B v0 v1 v2 pol) p :=
+  have hB := triangleB_dcfree v0 v1 v2 pol p h
+  ⟨hB.divFreeAt, (hB.vd mu0R).curlFreeAt, (hB.vd mu0R).divFreeAt, hB.curlFreeAt⟩
+
+/-- the unit triangle seen from (0, 0, 1), and a skew triangle seen from (4, 4, 4), satisfy `TriClear` -/
+theorem triClear_unit : TriClear (⟨0, 0, 0⟩ : V3 ℝ) ⟨1, 0, 0⟩ ⟨0, 1, 0⟩ ⟨0, 0, 1⟩ := by
+  refine ⟨?_, ?_, ?_, ?_, ?_⟩
+  · simp only [saN, V3.dot, V3.cross, V3.sub_x, V3.sub_y, V3.sub_z]; norm_num
+  · apply solidAngleRaw_lt_of_D_nonneg
+    have h0 := norm_nonneg' ((⟨0, 0, 0⟩ : V3 ℝ) - ⟨0, 0, 1⟩)
+    have h1 := norm_nonneg' ((⟨1, 0, 0⟩ : V3 ℝ) - ⟨0, 0, 1⟩)
+    have h2 := norm_nonneg' ((⟨0, 1, 0⟩ : V3 ℝ) - ⟨0, 0, 1⟩)
+    have h3 := mul_nonneg (mul_nonneg h0 h1) h2
+    unfold saD
+    simp only [V3.dot, V3.sub_x, V3.sub_y, V3.sub_z]
+    norm_num
+    linarith
+  all_goals
+    left
+    simp only [V3.dot, V3.cross, V3.sub_x, V3.sub_y, V3.sub_z]
+    norm_num
+
+theorem triClear_skew : TriClear (⟨1, 2, 3⟩ : V3 ℝ) ⟨-1, 0, 5⟩ ⟨2, -1, 0⟩ ⟨4, 4, 4⟩ := by
+  refine ⟨?_, ?_, ?_, ?_, ?_⟩
+  · simp only [saN, V3.dot, V3.cross, V3.sub_x, V3.sub_y, V3.sub_z]; norm_num
+  · apply solidAngleRaw_lt_of_D_nonneg
+    have h0 := norm_nonneg' ((⟨1, 2, 3⟩ : V3 ℝ) - ⟨4, 4, 4⟩)
+    have h1 := norm_nonneg' ((⟨-1, 0, 5⟩ : V3 ℝ) - ⟨4, 4, 4⟩)
+    have h2 := norm_nonneg' ((⟨2, -1, 0⟩ : V3 ℝ) - ⟨4, 4, 4⟩)
+    have h3 := mul_nonneg (mul_nonneg h0 h1) h2
+    unfold saD
+    simp only [V3.dot, V3.sub_x, V3.sub_y, V3.sub_z]
+    norm_num
+    linarith
+  all_goals
+    left
+    simp only [V3.dot, V3.cross, V3.sub_x, V3.sub_y, V3.sub_z]
+    norm_num
+
+-- non-vacuity
+example : DivFreeAt (bhjmTriangle .B (⟨0, 0, 0⟩ : V3 ℝ) ⟨1, 0, 0⟩ ⟨0, 1, 0⟩ ⟨1, -2, 3⟩) ⟨0, 0, 1⟩ ∧
+    CurlFreeAt (bhjmTriangle .H (⟨0, 0, 0⟩ : V3 ℝ) ⟨1, 0, 0⟩ ⟨0, 1, 0⟩ ⟨1, -2, 3⟩) ⟨0, 0, 1⟩ :=
+  ⟨triangle_div_free _ _ _ _ _ triClear_unit, triangle_curl_free _ _ _ _ _ triClear_unit⟩
+example : DivFreeAt (bhjmTriangle .B (⟨1, 2, 3⟩ : V3 ℝ) ⟨-1, 0, 5⟩ ⟨2, -1, 0⟩ ⟨1, -2, 3⟩) ⟨4, 4, 4⟩ ∧
+    CurlFreeAt (bhjmTriangle .H (⟨1, 2, 3⟩ : V3 ℝ) ⟨-1, 0, 5⟩ ⟨2, -1, 0⟩ ⟨1, -2, 3⟩) ⟨4, 4, 4⟩ :=
+  ⟨triangle_div_free _ _ _ _ _ triClear_skew, triangle_curl_free _ _ _ _ _ triClear_skew⟩
+
+/-- the statement is not empty of content: for the unit triangle with `J = (0, 0, 1)` seen from (0, 0, 1) the single partial
+derivative `∂Bz/∂z` is the explicit `triJac` entry, and the solid-angle part of it, `n_z·(∇Ω)_z = −(β₀ + β₁ + β₂)·… `, is built from the
+Biot–Savart scalars of the three edges (each positive) -/
+example : HasDerivAt (fun t => (triangleB (⟨0, 0, 0⟩ : V3 ℝ) ⟨1, 0, 0⟩ ⟨0, 1, 0⟩ ⟨0, 0, 1⟩ ⟨0, 0, t⟩).z)
+    (triJac (⟨0, 0, 0⟩ : V3 ℝ) ⟨1, 0, 0⟩ ⟨0, 1, 0⟩ ⟨0, 0, 1⟩ ⟨0, 0, 1⟩).r3.z 1 :=
+  (triangle_partials _ _ _ _ _ triClear_unit).1.zz
+
+/-- the clamp hypothesis of `TriClear` excludes observers OFF the plane: at (1, 1, 1e-10) over the triangle (0,0,0), (4,0,0), (0,4,0) the
+code returns the solid angle 0, not the smooth value (which is larger than 6.2831853 in absolute value) — the model is
+discontinuous across the boundary of that band, so no local law holds there (known finding `triangle-split:clamp-band`) -/
+theorem triangle_clamp_band_excluded :
+    saN ((⟨0, 0, 0⟩ : V3 ℝ) - ⟨1, 1, 1 / 10000000000⟩) ((⟨4, 0, 0⟩ : V3 ℝ) - ⟨1, 1, 1 / 10000000000⟩)
+        ((⟨0, 4, 0⟩ : V3 ℝ) - ⟨1, 1, 1 / 10000000000⟩) ≠ 0 ∧
+    ¬ TriClear (⟨0, 0, 0⟩ : V3 ℝ) ⟨4, 0, 0⟩ ⟨0, 4, 0⟩ ⟨1, 1, 1 / 10000000000⟩ ∧
+    solidAngle ((⟨0, 0, 0⟩ : V3 ℝ) - ⟨1, 1, 1 / 10000000000⟩) ((⟨4, 0, 0⟩ : V3 ℝ) - ⟨1, 1, 1 / 10000000000⟩)
+        ((⟨0, 4, 0⟩ : V3 ℝ) - ⟨1, 1, 1 / 10000000000⟩) (Kern.norm ((⟨0, 0, 0⟩ : V3 ℝ) - ⟨1, 1, 1 / 10000000000⟩))
+        (Kern.norm ((⟨4, 0, 0⟩ : V3 ℝ) - ⟨1, 1, 1 / 10000000000⟩)) (Kern.norm ((⟨0, 4, 0⟩ : V3 ℝ) - ⟨1, 1, 1 / 10000000000⟩)) = 0 := by
+  have hw := witness_clamped
+  refine ⟨?_, fun h => ?_, ?_⟩
+  · simp only [saN, V3.dot, V3.cross, V3.sub_x, V3.sub_y, V3.sub_z]; norm_num
+  · unfold SolidAngleClamped at hw
+    exact absurd h.2.1 (not_lt.mpr hw.le)
+  · unfold SolidAngleClamped at hw
+    rw [solidAngle_clamp, if_pos hw]
+
+/-- C14 (Tetrahedron, H): `BHJM_magnet_tetrahedron` for `field="H"` is the sum of the four face sheets divided by μ₀; at every
+observer at which the four faces (after the chirality fix) satisfy `TriClear` — in particular off the four face planes — it is
+curl-free (and divergence-free) -/
+theorem tetra_H_curl_free (v0 v1 v2 v3 pol p : V3 ℝ) (h : FacesClear (tetraFaces (v0, v1, v2, v3)) p) :
+    CurlFreeAt (bhjmTetra .H v0 v1 v2 v3 pol) p ∧ DivFreeAt (bhjmTetra .H v0 v1 v2 v3 pol) p :=
+  ⟨(tetraH_dcfree v0 v1 v2 v3 pol p h).curlFreeAt, (tetraH_dcfree v0 v1 v2 v3 pol p h).divFreeAt⟩
+
+/-- C14 (Tetrahedron, B): the four sheets plus the polarization inside; off the four face planes the inside mask of the code is
+locally constant, so div B = 0 (and curl B = 0) inside and outside -/
+theorem tetra_B_div_free (v0 v1 v2 v3 pol p : V3 ℝ) (h : FacesClear (tetraFaces (v0, v1, v2, v3)) p) :
+    DivFreeAt (bhjmTetra .B v0 v1 v2 v3 pol) p ∧ CurlFreeAt (bhjmTetra .B v0 v1 v2 v3 pol) p :=
+  ⟨(tetraB_dcfree v0 v1 v2 v3 pol p h).divFreeAt, (tetraB_dcfree v0 v1 v2 v3 pol p h).curlFreeAt⟩
+
+/-- C14 (TriangularMesh, one row): the sum of the triangle sheets of a row (`meshRowSheets`, what `BHJM_magnet_trimesh` adds up
+before the inside term) is divergence-free at every observer at which all faces satisfy `TriClear` -/
+theorem trimesh_row_div_free (faces : List (Tri ℝ)) (pol p : V3 ℝ) (h : FacesClear faces p) :
+    DivFreeAt (fun q => meshRowSheets ⟨faces, q, pol⟩) p :=
+  (sheetSum_dcfree faces pol p h).divFreeAt
+
+/-- … and divided by μ₀ (the row's H) it is curl-free -/
+theorem trimesh_row_H_curl_free (faces : List (Tri ℝ)) (pol p : V3 ℝ) (h : FacesClear faces p) :
+    CurlFreeAt (fun q => vd (meshRowSheets ⟨faces, q, pol⟩) mu0R) p :=
+  ((sheetSum_dcfree faces pol p h).vd mu0R).curlFreeAt
+
+/-- the row's B with an inside mask that is constant near the observer (`mask_inside_trimesh` is a parameter of the model) -/
+theorem trimesh_row_B_div_free (faces : List (Tri ℝ)) (pol p c : V3 ℝ) (h : FacesClear faces p) :
+    DivFreeAt (fun q => meshRowSheets ⟨faces, q, pol⟩ + c) p :=
+  ((sheetSum_dcfree faces pol p h).add_const c).divFreeAt
+
+/-- the four faces of the unit simplex tetrahedron satisfy `TriClear` at an INTERIOR observer (1/5, 1/5, 1/5) and at the exterior
+observer (-1, -1, -1); the clamp condition through `solidAngleRaw_lt_of_far` (`4 r0 r1 r2 ≤ 1e8·|N|`, rational arithmetic) -/
+theorem tetra_facesClear_examples :
+    FacesClear (tetraFaces ((⟨0, 0, 0⟩ : V3 ℝ), ⟨1, 0, 0⟩, ⟨0, 1, 0⟩, ⟨0, 0, 1⟩)) ⟨1 / 5, 1 / 5, 1 / 5⟩ ∧
+    FacesClear (tetraFaces ((⟨0, 0, 0⟩ : V3 ℝ), ⟨1, 0, 0⟩, ⟨0, 1, 0⟩, ⟨0, 0, 1⟩)) ⟨-1, -1, -1⟩ := by
+  have fW : tetraFaces ((⟨0, 0, 0⟩ : V3 ℝ), ⟨1, 0, 0⟩, ⟨0, 1, 0⟩, ⟨0, 0, 1⟩) =
+      [(⟨0, 0, 0⟩, ⟨0, 1, 0⟩, ⟨1, 0, 0⟩), (⟨0, 0, 0⟩, ⟨1, 0, 0⟩, ⟨0, 0, 1⟩), (⟨1, 0, 0⟩, ⟨0, 1, 0⟩, ⟨0, 0, 1⟩),
+        (⟨0, 0, 0⟩, ⟨0, 0, 1⟩, ⟨0, 1, 0⟩)] := by
+    have h10 : ¬ ((1 : ℝ) < 0) := by norm_num
+    simp [tetraFaces, tetraChirality, det3, n, h10]
+  rw [fW]
+  constructor <;> intro t ht <;> simp only [List.mem_cons, List.not_mem_nil, or_false] at ht <;>
+    rcases ht with rfl | rfl | rfl | rfl <;>
+    (refine ⟨?_, solidAngleRaw_lt_of_far _ _ _ ?_ ?_, Or.inl ?_, Or.inl ?_, Or.inl ?_⟩ <;>
+      simp only [saN, V3.dot, V3.cross, V3.sub_x, V3.sub_y, V3.sub_z] <;> norm_num)
+
+-- non-vacuity: inside the tetrahedron (where B = μ₀H + J with J ≠ 0) and outside
+example : tetraInside (⟨0, 0, 0⟩ : V3 ℝ) ⟨1, 0, 0⟩ ⟨0, 1, 0⟩ ⟨0, 0, 1⟩ ⟨1 / 5, 1 / 5, 1 / 5⟩ = true ∧
+    DivFreeAt (bhjmTetra .B (⟨0, 0, 0⟩ : V3 ℝ) ⟨1, 0, 0⟩ ⟨0, 1, 0⟩ ⟨0, 0, 1⟩ ⟨1, -2, 3⟩) ⟨1 / 5, 1 / 5, 1 / 5⟩ ∧
+    CurlFreeAt (bhjmTetra .H (⟨0, 0, 0⟩ : V3 ℝ) ⟨1, 0, 0⟩ ⟨0, 1, 0⟩ ⟨0, 0, 1⟩ ⟨1, -2, 3⟩) ⟨1 / 5, 1 / 5, 1 / 5⟩ := by
+  refine ⟨?_, (tetra_B_div_free _ _ _ _ _ _ tetra_facesClear_examples.1).1, (tetra_H_curl_free _ _ _ _ _ _ tetra_facesClear_examples.1).1⟩
+  rw [tetraInside_iff]
+  simp only [det3, V3.sub_x, V3.sub_y, V3.sub_z]
+  norm_num
+example : DivFreeAt (bhjmTetra .B (⟨0, 0, 0⟩ : V3 ℝ) ⟨1, 0, 0⟩ ⟨0, 1, 0⟩ ⟨0, 0, 1⟩ ⟨1, -2, 3⟩) ⟨-1, -1, -1⟩ ∧
+    CurlFreeAt (bhjmTetra .H (⟨0, 0, 0⟩ : V3 ℝ) ⟨1, 0, 0⟩ ⟨0, 1, 0⟩ ⟨0, 0, 1⟩ ⟨1, -2, 3⟩) ⟨-1, -1, -1⟩ :=
+  ⟨(tetra_B_div_free _ _ _ _ _ _ tetra_facesClear_examples.2).1, (tetra_H_curl_free _ _ _ _ _ _ tetra_facesClear_examples.2).1⟩
+-- a TriangularMesh row: the same four faces as a mesh
+example : DivFreeAt (fun q => meshRowSheets ⟨tetraFaces ((⟨0, 0, 0⟩ : V3 ℝ), ⟨1, 0, 0⟩, ⟨0, 1, 0⟩, ⟨0, 0, 1⟩), q, ⟨1, -2, 3⟩⟩)
+    ⟨1 / 5, 1 / 5, 1 / 5⟩ := trimesh_row_div_free _ _ _ tetra_facesClear_examples.1
+
+end triangle_local
 
 end MagpyVerif.C14
